@@ -21,6 +21,11 @@
 (* f(1, p1=1)), at construction "boxed" (every value v is the symbolic     *)
 (* container pg.Dict(x=v), written Box(v) = 100000+v), at call time        *)
 (* "asbound" (the value already bound to that parameter is passed again).  *)
+(* At construction also "asdefault": every parameter that has a default    *)
+(* receives 950+p, a value EQUAL to its default 900+p but a distinct       *)
+(* object (IsDefaultVal); rebind entries <<"dflt", n>> write such a value  *)
+(* over a non-default one.  What the functor reports as non_default_args / *)
+(* default_args is decided by the VALUE (NonDefaultArgs / DefaultArgs).    *)
 (* A rebind is an ORDERED list of 1..MaxRebind entries with distinct       *)
 (* targets: <<"top", n>> binds n to 600+n, <<"box", n>> to Box(650+n),     *)
 (* <<"in", n>> writes 800+n at the nested path n.x of a boxed argument.    *)
@@ -114,11 +119,14 @@ PosVals(c, base) == [k \in 1..c.nargs |-> base + k]
 KwVals(c, base) == [n \in c.kw |-> base + n]
 BindShape(s, c, pbase, kbase) == BindV(s, PosVals(c, pbase), KwVals(c, kbase))
 
-CtorModes == {"distinct", "equal", "boxed"}
+CtorModes == {"distinct", "equal", "boxed", "asdefault"}
 CallModes == {"distinct", "equal", "asbound"}
 CV(vm, v) == IF vm = "boxed" THEN Box(v) ELSE v
-CtorPos(c, vm) == [k \in 1..c.nargs |-> CV(vm, 100 + k)]
-CtorKw(c, vm) == [n \in c.kw |-> CV(vm, (IF vm = "equal" THEN 100 ELSE 200) + n)]
+DefaultCopy(p) == 950 + p                               \* equal to Default(p), not the same object
+IsDefaultVal(p, v) == v = Default(p) \/ v = DefaultCopy(p)
+CtorPos(s, c, vm) == [k \in 1..c.nargs |-> IF vm = "asdefault" /\ HasDefault(s, k) THEN DefaultCopy(k) ELSE CV(vm, 100 + k)]
+CtorKw(s, c, vm) == [n \in c.kw |-> IF vm = "asdefault" /\ n \in Named(s) /\ HasDefault(s, n) THEN DefaultCopy(n)
+                                    ELSE CV(vm, (IF vm = "equal" THEN 100 ELSE 200) + n)]
 CallPosVal(b, cm, p) == IF cm = "asbound" /\ p \in DOMAIN b THEN b[p] ELSE 300 + p
 CallKwVal(b, cm, n) == IF cm = "asbound" /\ n \in DOMAIN b THEN b[n] ELSE (IF cm = "distinct" THEN 400 ELSE 300) + n
 CallPosSeq(s, b, cm, c) == [k \in 1..c.nargs |-> IF k <= s.npos THEN CallPosVal(b, cm, k) ELSE 300 + k]
@@ -135,8 +143,8 @@ ConstructOutcome(s, c) ==
 BoundOf(s, pos, kw) ==
   [n \in {p \in PosParams(s) : p <= Len(pos)} \cup DOMAIN kw |-> IF n \in PosParams(s) /\ n <= Len(pos) THEN pos[n] ELSE kw[n]]
 VargsOf(s, pos) == IF Len(pos) > s.npos THEN SubSeq(pos, s.npos + 1, Len(pos)) ELSE <<>>
-ConstructBound(s, c, vm) == BoundOf(s, CtorPos(c, vm), CtorKw(c, vm))
-ConstructVargs(s, c, vm) == VargsOf(s, CtorPos(c, vm))
+ConstructBound(s, c, vm) == BoundOf(s, CtorPos(s, c, vm), CtorKw(s, c, vm))
+ConstructVargs(s, c, vm) == VargsOf(s, CtorPos(s, c, vm))
 
 (* The call: merge rule of the Functor documentation *)
 CallPos(s, c) == {p \in PosParams(s) : p <= c.nargs}
@@ -178,6 +186,16 @@ MergedOutcome(s, b, v, c, ov, ig, cm) ==
 \* what the functor reports as its arguments (sym_init_args): specified value, else the default, else MISSING (0)
 Reported(s, b) == [p \in Named(s) |-> IF p \in DOMAIN b THEN b[p] ELSE IF HasDefault(s, p) THEN Default(p) ELSE 0]
 
+\* the documented argument sets: non_default_args = bound arguments whose value is not the default; default_args =
+\* arguments whose value is the default (bound to it or left to it); `*args` counts under the name ARGS
+ARGS == 99
+NonDefaultArgs(s, b, v) == {n \in DOMAIN b : ~(n \in Named(s) /\ HasDefault(s, n) /\ IsDefaultVal(n, b[n]))}
+                           \cup (IF v # <<>> THEN {ARGS} ELSE {})
+DefaultArgs(s, b, v) == {p \in Named(s) : HasDefault(s, p) /\ (p \notin DOMAIN b \/ IsDefaultVal(p, b[p]))}
+                        \cup (IF s.va /\ v = <<>> THEN {ARGS} ELSE {})
+Report(s, b, v) == [args |-> Reported(s, b), nondef |-> NonDefaultArgs(s, b, v), dflt |-> DefaultArgs(s, b, v)]
+NoRep == [args |-> EmptyMap, nondef |-> {}, dflt |-> {}]
+
 (* Symbolization with an explicit value spec for parameter p (pg.functor([(p, spec)]), pg.symbolize(f, [..]),      *)
 (* pg.wrap(cls, [..])).  Documented: a spec whose default conflicts with the callable's own default is refused       *)
 (* (ValueError); otherwise the callable's default stands, i.e. the annotated callable binds exactly like `s`.         *)
@@ -191,8 +209,12 @@ AnnotatedSig(s, p, m) == s
 
 (* Rebind: an ordered list of entries <<kind, name>> with distinct targets *)
 EntryOK(s, b, e) == /\ e[2] \in Named(s)
+                    \* an equal-to-default value is only written over a different value (writing it over the default
+                    \* itself changes nothing; whether that "specifies" the argument is undocumented)
+                    /\ (e[1] = "dflt") => (HasDefault(s, e[2]) /\ e[2] \in DOMAIN b /\ ~IsDefaultVal(e[2], b[e[2]]))
                     /\ (e[1] = "in") => (e[2] \in DOMAIN b /\ IsBox(b[e[2]]))
-EntryVal(e) == IF e[1] = "top" THEN 600 + e[2] ELSE IF e[1] = "box" THEN Box(650 + e[2]) ELSE Box(800 + e[2])
+EntryVal(e) == IF e[1] = "top" THEN 600 + e[2] ELSE IF e[1] = "box" THEN Box(650 + e[2])
+               ELSE IF e[1] = "dflt" THEN DefaultCopy(e[2]) ELSE Box(800 + e[2])
 ApplyEntry(b, e) == Override(b, [m \in {e[2]} |-> EntryVal(e)])
 RECURSIVE ApplySeq(_, _)
 ApplySeq(b, es) == IF es = <<>> THEN b ELSE ApplySeq(ApplyEntry(b, Head(es)), Tail(es))   \* in the order given
@@ -206,7 +228,7 @@ P(S) == IF SimK = 0 \/ S = {} THEN S ELSE RandomSubset(IF SimK < Cardinality(S) 
 NoRes == Err("none")
 
 Init == /\ sig \in WFSigs /\ phase = "new" /\ bound = EmptyMap /\ vargs = <<>> /\ ovr = FALSE /\ ign = FALSE
-        /\ flagAt = "call" /\ res = NoRes /\ act = <<"Init">> /\ steps = 0 /\ rep = EmptyMap
+        /\ flagAt = "call" /\ res = NoRes /\ act = <<"Init">> /\ steps = 0 /\ rep = NoRep
 
 Construct(c, o, g, fa, vm) ==
   /\ phase = "new"
@@ -217,26 +239,26 @@ Construct(c, o, g, fa, vm) ==
           THEN /\ phase' = "built" /\ bound' = ConstructBound(sig, c, vm) /\ vargs' = ConstructVargs(sig, c, vm)
                /\ ovr' = o /\ ign' = g /\ flagAt' = fa
           ELSE UNCHANGED <<phase, bound, vargs, ovr, ign, flagAt>>
-  /\ rep' = IF phase' = "built" THEN Reported(sig, bound') ELSE EmptyMap
-  /\ act' = <<"Construct", CtorPos(c, vm), CtorKw(c, vm), o, g, fa, vm>>    \* the valued arguments themselves
+  /\ rep' = IF phase' = "built" THEN Report(sig, bound', vargs') ELSE NoRep
+  /\ act' = <<"Construct", CtorPos(sig, c, vm), CtorKw(sig, c, vm), o, g, fa, vm>>    \* the valued arguments themselves
   /\ steps' = steps + 1 /\ UNCHANGED sig
 
 SetAttr(n) ==
   /\ phase = "built" /\ n \in Named(sig)
   /\ bound' = Override(bound, [m \in {n} |-> 500 + n])
-  /\ act' = <<"SetAttr", n, 500 + n>> /\ res' = NoRes /\ steps' = steps + 1 /\ rep' = Reported(sig, bound')
+  /\ act' = <<"SetAttr", n, 500 + n>> /\ res' = NoRes /\ steps' = steps + 1 /\ rep' = Report(sig, bound', vargs)
   /\ UNCHANGED <<sig, phase, vargs, ovr, ign, flagAt>>
 
 DelAttr(n) ==
   /\ phase = "built" /\ n \in (DOMAIN bound) \cap Named(sig)
   /\ bound' = Restrict(bound, (DOMAIN bound) \ {n})
-  /\ act' = <<"DelAttr", n>> /\ res' = NoRes /\ steps' = steps + 1 /\ rep' = Reported(sig, bound')
+  /\ act' = <<"DelAttr", n>> /\ res' = NoRes /\ steps' = steps + 1 /\ rep' = Report(sig, bound', vargs)
   /\ UNCHANGED <<sig, phase, vargs, ovr, ign, flagAt>>
 
 Rebind(es) ==
   /\ phase = "built" /\ es # <<>> /\ DistinctTargets(es) /\ \A k \in 1..Len(es) : EntryOK(sig, bound, es[k])
   /\ bound' = ApplySeq(bound, es)
-  /\ act' = <<"Rebind", [k \in 1..Len(es) |-> <<es[k][1], es[k][2], EntryVal(es[k])>>]>> /\ res' = NoRes /\ steps' = steps + 1 /\ rep' = Reported(sig, bound')
+  /\ act' = <<"Rebind", [k \in 1..Len(es) |-> <<es[k][1], es[k][2], EntryVal(es[k])>>]>> /\ res' = NoRes /\ steps' = steps + 1 /\ rep' = Report(sig, bound', vargs)
   /\ UNCHANGED <<sig, phase, vargs, ovr, ign, flagAt>>
 
 \* replacing the functor by its clone keeps everything, flags included
@@ -259,7 +281,7 @@ Call(c, ov, ig, cm) ==
 
 \* dropping the functor: the walk may build another one for the same function
 Drop == /\ phase = "built" /\ phase' = "new" /\ bound' = EmptyMap /\ vargs' = <<>> /\ ovr' = FALSE /\ ign' = FALSE
-        /\ flagAt' = "call" /\ res' = NoRes /\ act' = <<"Drop">> /\ steps' = steps + 1 /\ rep' = EmptyMap /\ UNCHANGED sig
+        /\ flagAt' = "call" /\ res' = NoRes /\ act' = <<"Drop">> /\ steps' = steps + 1 /\ rep' = NoRep /\ UNCHANGED sig
 
 \* simulation only: mostly arguments that the step accepts, plus a few arbitrary ones
 CtorCalls == IF SimK = 0 THEN Calls
@@ -267,7 +289,7 @@ CtorCalls == IF SimK = 0 THEN Calls
 CallCalls == IF SimK = 0 THEN Calls
              ELSE P({c \in Calls : \E ov \in BOOLEAN : CallOutcome(sig, bound, vargs, c, ov, FALSE, "distinct").err = "ok"})
                   \cup RandomSubset(2, Calls)
-Entries == {e \in {"top", "box", "in"} \X Named(sig) : EntryOK(sig, bound, e)}
+Entries == {e \in {"top", "box", "in", "dflt"} \X Named(sig) : EntryOK(sig, bound, e)}
 \* (simulation: two random entries per position, so that rebinds do not crowd out the other actions)
 PR(S) == IF SimK = 0 \/ S = {} THEN S ELSE RandomSubset(IF Cardinality(S) < 2 THEN 1 ELSE 2, S)
 RebindSeqs == {<<e>> : e \in PR(Entries)}
@@ -291,7 +313,9 @@ TypeOK == /\ sig \in WFSigs /\ phase \in {"new", "built"}
           /\ DOMAIN bound \subseteq Named(sig) \cup (IF sig.vk THEN KwNames ELSE {})
           /\ (vargs # <<>>) => sig.va
           /\ (phase = "new") => (bound = EmptyMap /\ vargs = <<>>)
-          /\ rep = (IF phase = "built" THEN Reported(sig, bound) ELSE EmptyMap)
+          /\ rep = (IF phase = "built" THEN Report(sig, bound, vargs) ELSE NoRep)
+          /\ rep.nondef \cap rep.dflt = {}
+          /\ (phase = "built") => (DOMAIN bound \subseteq rep.nondef \cup rep.dflt)
           /\ res.err \in {"none", "ok", "toomany", "multiple", "rebound", "unexpected", "missing"}
 
 \* the effective direct call is well defined: binding it gives exactly the merged arguments
@@ -308,6 +332,14 @@ ResultComplete ==
     /\ \A p \in Required(sig) : res.vals[p] # Default(p)
     /\ (res.va # <<>>) => sig.va
     /\ (DOMAIN res.kwx # {}) => sig.vk
+
+\* what is reported as default / non-default is what a call that does not supply the argument really uses
+ReportedSetsAreEffective ==
+  (act[1] = "Call" /\ res.err = "ok") =>
+    \A p \in Named(sig) :
+      (p > Len(act[2]) /\ p \notin DOMAIN act[3]) =>
+        /\ (p \in rep.dflt) => IsDefaultVal(p, res.vals[p])
+        /\ (p \in rep.nondef) => ~IsDefaultVal(p, res.vals[p])
 
 (* Action properties *)
 \* a call never changes what is bound; mutators never produce an outcome
